@@ -127,6 +127,9 @@ def run(ctx):
     docs = sorted([v for v in vectors if v["kind"] == "doc"], key=lambda v: (v["v"], json.dumps(v["devs"])))
     if len(docs) < LAST + 8:
         raise vlib.Inconclusive("too few document-level vectors: %d" % len(docs))
+    fams = sorted([v for v in vectors if v["kind"] == "fam"], key=lambda v: (v["v"], json.dumps(v["devs"])))
+    if len(fams) < 500 or any(v["err"] or (len(v["oks"]) != 1 and v["start"] != LAST) for v in fams):
+        raise vlib.Inconclusive("client-list families: %d vectors, some not valid" % len(fams))
     singles = [v for v in vectors if v["kind"] == "vec"]
     if len(bases) != LAST + 1 or len(singles) < 3000:
         raise vlib.Inconclusive("too few vectors: %d bases, %d deviations" % (len(bases), len(singles)))
@@ -144,7 +147,7 @@ def run(ctx):
                  "clients", "zz_extra", "dns.zz_extra"}
         replayed_singles = [v for v in singles if v["start"] >= 5 or v["devs"][0]["k"] in early
                             or v["devs"][0]["k"].startswith("cl0") or rng.random() < 0.25]
-    allv = sorted(bases.values(), key=lambda v: v["v"]) + docs + replayed_singles
+    allv = sorted(bases.values(), key=lambda v: v["v"]) + docs + fams + replayed_singles
 
     # ---- pairs (thorough): all generated for v >= 5, a seeded sample below
     npairs = 0
@@ -195,13 +198,22 @@ def run(ctx):
     report(ctx, rows, by_id, bases, stats)
 
     # ---- loader acceptance of upgraded golden documents
-    loader = loader_check(ctx)
+    # ... and of every valid document of the record-list families (clients of
+    # different shapes in every order, filters in every order, users /
+    # rewrites / allow-list filters with records of different shapes).
+    def family(v):
+        if v["kind"] == "fam":
+            return True
+        return (v["kind"] == "vec" and len(v["devs"]) == 1 and not v["err"] and len(v["oks"]) == 1
+                and (v["devs"][0]["d"] == "recs" or v["devs"][0]["d"].startswith("perm")))
+    famdocs = [v for v in allv if family(v)]
+    loader, loader_fam = loader_check(ctx, famdocs, by_id, bases)
 
     if stats["skipped"] > len(allv) // 10:
         raise vlib.Inconclusive("too many skipped vectors: %d" % stats["skipped"])
 
     def nontrivial(v):
-        return v["kind"] in ("vec", "doc") and (v["err"] or len(v["oks"]) > 1 or v["start"] != v["v"])
+        return v["kind"] == "fam" or v["kind"] in ("vec", "doc") and (v["err"] or len(v["oks"]) > 1 or v["start"] != v["v"])
 
     samples = [{k: singles[i][k] for k in ("v", "devs", "err", "start")} | {"n_admissible_shapes": len(singles[i]["oks"])}
                for i in (0, len(singles) // 2, len(singles) - 1)]
@@ -219,7 +231,8 @@ def run(ctx):
         "rule": "one vector per (golden version, deviation set); evaluations = real one-shot and split upgrade paths "
                 "run; non-trivial = the spec admits an error or several result shapes, or the stamp deviates "
                 "(a null/mistyped/absent key that a later step reads)",
-        "loader_accepted": loader,
+        "loader_accepted": loader, "loader_accepted_family_documents": loader_fam,
+        "client_family_vectors": len(fams),
         # Every enumerated document is replayed in both tiers; the split
         # points are all replayed only for documents starting at schema >= 5
         # in the thorough tier (below 5 every path costs a bcrypt hash).
@@ -241,23 +254,40 @@ def run(ctx):
         "for the undeviated golden documents only, not decided by the spec"])
 
 
-def loader_check(ctx):
+def loader_check(ctx, famdocs, by_id, bases):
     hdir = os.path.join(vlib.HARNESS, HOME_PKG)
     if not os.path.exists(os.path.join(hdir, "zz_verif_c13_test.go")):
-        return None
-    out = ctx.path("c13_loader.ndjson")
-    rc, o = ctx.go_test(HOME_PKG, HOME_FILES, "^TestZZVerifC13Loader$", env={"VERIF_OUT": out}, timeout=1200)
-    rows = vlib.read_ndjson(out)
+        return None, None
+    env = {"VERIF_OUT": ctx.path("c13_loader.ndjson")}
+    if famdocs:
+        vin, rendered = ctx.path("c13_fam_in.ndjson"), ctx.path("c13_fam_docs.ndjson")
+        vlib.write_ndjson(vin, famdocs)
+        rc, o = ctx.go_test(PKG, FILES, "^TestZZVerifC13Render$", env={"VERIF_IN": vin, "VERIF_OUT": rendered})
+        if rc != 0 or len(vlib.read_ndjson(rendered)) < len(famdocs) * 9 // 10:
+            raise vlib.Inconclusive("C13 render harness did not complete:\n" + o[-3000:])
+        env["VERIF_IN"] = rendered
+    rc, o = ctx.go_test(HOME_PKG, HOME_FILES, "^TestZZVerifC13Loader$", env=env, timeout=1200)
+    rows = vlib.read_ndjson(env["VERIF_OUT"])
     if rc != 0 or not rows:
         raise vlib.Inconclusive("C13 loader harness did not complete:\n" + o[-3000:])
-    n = 0
+    n = nfam = 0
     for r in rows:
         if r.get("kind") == "bad":
-            ctx.disagreement(None, r, "upgraded golden document of schema %s rejected by the loader: %s" % (
-                r.get("v"), r.get("what")))
+            rec = dict(r)
+            if r.get("family"):
+                rec["vec"] = by_id.get(r["id"])
+                rec["base"] = bases.get(r["v"])
+                rec["symptom"] = "loader-rejects"
+            ctx.disagreement(None, rec, "loader-rejects: v=%s devs=%s: the upgraded valid document is rejected "
+                             "by the configuration loader: %s" % (r.get("v"), json.dumps(r.get("devs")), r.get("what")))
         elif r.get("kind") == "pass":
-            n += 1
-    return n
+            if r.get("family"):
+                nfam += 1
+            else:
+                n += 1
+    if famdocs and nfam + sum(1 for r in rows if r.get("kind") == "bad" and r.get("family")) < len(famdocs) * 9 // 10:
+        raise vlib.Inconclusive("loader saw %d of %d family documents" % (nfam, len(famdocs)))
+    return n, nfam
 
 
 def replay(ctx, path):
